@@ -133,6 +133,7 @@ type Run struct {
 	reverseMaps bool
 	preempts    int
 	aliases     map[*Agg][]aliasRange
+	frozen      map[*Agg]string // backing arrays the harness declared immutable (shared tables)
 	decReg      map[*smt.Term]decEntry
 	hornerReg   map[*smt.Term]hornerEntry
 	decCache    map[*smt.Term][]*smt.Term
